@@ -1285,7 +1285,81 @@ macro_rules! tick {
     };
 }
 
+/// `adlt convert --anon -o` through the binary: the anonymised export must keep all times and the lifecycle structure
+fn cli_anon_family(ctx: &mut Ctx) {
+    ctx.begin_family("cli_anon", "adlt convert --anon -o on the 4 generated C14 input files (every 6th file order): re-read, compare times, id maps and the lifecycles detected by the library on original vs anonymised");
+    let w = crate::c14::World::build();
+    let orig: Vec<DltMessage> = w.merged.iter().enumerate().map(|(i, m)| crate::core::dltgen::mk_msg(i as u32, &m.ecu, m.recv_us, m.ts_dms, true, Some((0x41, 1, m.apid, m.ctid)), crate::rem::verbose_str_payload(&m.text))).collect();
+    let mut perms = vec![];
+    crate::core::enumr::permutations(4, |p| {
+        perms.push(p.to_vec());
+        true
+    });
+    perms.sort();
+    for (pi, perm) in perms.iter().enumerate().filter(|(i, _)| i % 6 == 0) {
+        if !ctx.mine() {
+            continue;
+        }
+        let out = format!("{}/anon-{pi}.dlt", w.dir);
+        let mut c = std::process::Command::new(crate::rem::adlt_bin());
+        c.arg("convert").arg("--anon").arg("-o").arg(&out);
+        for i in perm {
+            c.arg(&w.files[*i]);
+        }
+        let cj = || json!({"family": "cli_anon", "file_perm": pi});
+        let ok = c.output().map(|o| o.status.success()).unwrap_or(false);
+        let bytes = std::fs::read(&out).unwrap_or_default();
+        ctx.landmark("cli_anon_case");
+        ctx.eval(true);
+        if !ok || bytes.is_empty() {
+            ctx.violation("cli_anon_failed", "", cj, format!("convert --anon -o failed (ok={ok}, {} bytes)", bytes.len()));
+            continue;
+        }
+        let anon: Vec<DltMessage> = adlt::utils::DltMessageIterator::new(0, &bytes[..]).collect();
+        if anon.len() != orig.len() {
+            ctx.violation("anon_count", "cli", cj, format!("{} messages exported for {}", anon.len(), orig.len()));
+            continue;
+        }
+        let mut emap: EcuMap = BTreeMap::new();
+        let mut rev: BTreeMap<[u8; 4], [u8; 4]> = BTreeMap::new();
+        let mut bad = None;
+        for (o, a) in orig.iter().zip(anon.iter()) {
+            if o.reception_time_us != a.reception_time_us || o.timestamp_dms != a.timestamp_dms {
+                bad = Some(("anon_time", format!("message {}: times changed", o.index)));
+                break;
+            }
+            let (oe, ae) = (*o.ecu.as_buf(), *a.ecu.as_buf());
+            if *emap.entry(oe).or_insert(ae) != ae {
+                bad = Some(("anon_functional", format!("ECU {:?} mapped to two pseudonyms", oe)));
+                break;
+            }
+            if *rev.entry(ae).or_insert(oe) != oe {
+                bad = Some(("anon_injective", format!("pseudonym {:?} used for two ECUs", ae)));
+                break;
+            }
+        }
+        if let Some((c, d)) = bad {
+            ctx.violation(c, "cli", cj, d);
+            continue;
+        }
+        let (ro, ra) = (lc::run_stage(&[&orig]), lc::run_stage(&[&anon]));
+        match (ro, ra) {
+            (Ok(ro), Ok(ra)) => {
+                if lc_view(&ro, Some(&emap)) != lc_view(&ra, None) {
+                    ctx.violation("anon_lc_differs", "cli", cj, "lifecycles detected on the anonymised export differ from the original".into());
+                }
+            }
+            _ => ctx.violation("panic", "cli_anon_lifecycle", cj, "lifecycle stage panicked".into()),
+        }
+    }
+    ctx.end_family(true);
+    let _ = std::fs::remove_dir_all(&w.dir);
+}
+
 impl Prop for C19 {
+    fn prepare(&self, _t: Tier) -> Result<(), String> {
+        crate::rem::build_adlt_bin()
+    }
     fn meta(&self, _tier: Tier) -> Meta {
         Meta {
             id: "C19",
@@ -1300,7 +1374,7 @@ impl Prop for C19 {
             ],
             budget_s: (38, 1200),
             workers: 0,
-            required_landmarks: vec![
+            required_landmarks: vec!["cli_anon_case", 
                 "decoded:NonVerbose", "decoded:SomeIp", "decoded:CAN", "decoded:Muniic", "decoded:Rewrite",
                 "not_matching:NonVerbose", "not_matching:SomeIp", "not_matching:CAN", "not_matching:Muniic", "not_matching:Rewrite",
                 "rewrite_timestamp_changed", "ext_header_filled", "ft_flda_dropped", "ft_flda_kept",
@@ -1311,6 +1385,7 @@ impl Prop for C19 {
     }
 
     fn run(&self, ctx: &mut Ctx) {
+        cli_anon_family(ctx);
         let pool = pool();
         if std::env::var("C19_DUMP").is_ok() {
             // diagnostic aid: what each plugin alone makes of each pool message
